@@ -10,6 +10,7 @@ the direct `em_update_matrix` calls (kind "em_kernel") is attached through the h
 `model_requests` / `compare` below."""
 import math
 import random
+from . import twinutil
 
 PROP = "C10"
 # kernels regenerated from /repo's current source, run inside Lean under Python semantics with checked accesses over an
@@ -23,6 +24,10 @@ TWIN_CHECKS = [
     {"op": "twin.scope", "fn": "lempel_ziv_based_encode", "args": [{"choices": ["", "a", "ab", "abab", "aaaa", "abcabcabc"]}, {"choices": [{"d": []}, {"d": [["a", 1], ["b", 1]]}]}, {"const": "<fn identity_hash>"}, {"choices": [1, 2, 3, 100]}]},
     {"op": "twin.scope", "fn": "murmurhash", "args": [{"lists": [0, 97, 255], "maxlen": 6}, {"choices": [0, 7, 2147483646]}]},
     {"op": "twin.sparse_exhaustive", "k": 4},
+    # append buffer: every append sequence (2 cells, length <= 7) + finalisation of every prefix, capacities 2..9 x limits
+    {"op": "twin.coo_scope", "caps": [2, 3, 4, 5, 6, 7, 8, 9], "lims": [1, 2, 3, 4, 8], "nkeys": 2, "n": 7},
+    # em_update_matrix on every valid small CSR matrix / window / kernel combination of twin.em_exhaustive's scope
+    {"op": "twin.em_scope"},
 ]
 MODES = [("normal", {}), ("boundscheck", {"NUMBA_BOUNDSCHECK": "1"}), ("nojit", {"NUMBA_DISABLE_JIT": "1"})]
 # the case list is laid out in W lanes (case i runs in worker i % W), so that every worker only
@@ -1301,7 +1306,11 @@ def model_requests(case, outs):
     if k == "em_kernel":
         return [{"op": "em.update", "indptr": case["indptr"], "indices": case["indices"],
                  "data": [_rat(x) for x in case["data"]], "post": [_rat(x) for x in case["post"]], "n": case["n"],
-                 "t": case["target"], "w": case["windows"], "k": [[_rat(x) for x in r] for r in case["kernels"]]}]
+                 "t": case["target"], "w": case["windows"], "k": [[_rat(x) for x in r] for r in case["kernels"]]},
+                # the compiled kernel vs the twin regenerated from the current source (validates translator + interpreter)
+                twinutil.call("em_update_matrix", [[float(x) for x in case["post"]], case["indices"], case["indptr"],
+                                                   [float(x) for x in case["data"]], case["n"], case["target"], case["windows"],
+                                                   [[float(x) for x in r] for r in case["kernels"]]])]
     if k == "bpe_kernel":
         return [{"op": "bpe.contract", "a": case["a"], "p": case["p"], "c": case["c"]}]
     if k == "cooc":
@@ -1349,6 +1358,16 @@ def compare(case, outs, resps):
             bcp = bc.get("post") if isinstance(bc, dict) else None
             if not (_is_exc(bcp) and bcp["exc"] == "IndexError"):
                 d.append(f"em_update_matrix: model reports {r['err']} but the bounds-checked run does not raise IndexError")
+        tw = resps[1] if len(resps) > 1 else None
+        if tw is not None and not twinutil.unavailable(tw):
+            if "ok" in tw:
+                texp = [float(x) for x in twinutil.pv(tw["ok"])]
+                if not _is_exc(got) and (len(got) != len(texp) or any(not math.isclose(a, b, rel_tol=1e-5, abs_tol=1e-6) for a, b in zip(got, texp))):
+                    d.append(f"em_update_matrix: implementation {got} != generated twin {texp}")
+            elif twinutil.memory_error(tw):
+                bcp = bc.get("post") if isinstance(bc, dict) else None
+                if not (_is_exc(bcp) and bcp["exc"] == "IndexError"):
+                    d.append(f"em_update_matrix: generated twin reports {tw['err']} but the bounds-checked run does not raise IndexError")
         return d
     if k == "bpe_kernel":
         r = resps[0]
